@@ -163,5 +163,16 @@ def scenario(c, inst):
             same("hermite.end_value_t1", itp(t1), P(t1), scale)
             same("hermite.end_slope_t0", itp.grad(t0), dP(t0), scale)
             same("hermite.end_slope_t1", itp.grad(t1), dP(t1), scale)
+            if shape:
+                # the caller modifies IN PLACE the arrays the piece handed back (y = piece(t); y += ...): the piece must still reproduce
+                # its end values, end slopes and the cubic afterwards
+                for res in (itp(q), itp.grad(q), itp(t0), itp(t1), itp.grad(t0), itp.grad(t1)):
+                    res[...] = 0 * res + 9
+                same("hermite.results_modified_by_caller.value_exact_on_cubics", itp(q), P(q), scale)
+                same("hermite.results_modified_by_caller.grad_is_derivative", itp.grad(q), dP(q), scale)
+                same("hermite.results_modified_by_caller.end_value_t0", itp(t0), P(t0), scale)
+                same("hermite.results_modified_by_caller.end_value_t1", itp(t1), P(t1), scale)
+                same("hermite.results_modified_by_caller.end_slope_t0", itp.grad(t0), dP(t0), scale)
+                same("hermite.results_modified_by_caller.end_slope_t1", itp.grad(t1), dP(t1), scale)
         except Exception as e:
             c.check("hermite.no_exception", False, info=repr(e))
